@@ -129,7 +129,19 @@ func (e *Env) eval(x Expr) Val {
 		if x.Forall {
 			q = "forall"
 		}
-		return Val{T: fmt.Sprintf("(%s (%s) %s)", q, strings.Join(bs, " "), body.T), Ty: tBool}
+		bt := body.T
+		if len(x.Triggers) > 0 {
+			var ps []string
+			for _, tr := range x.Triggers {
+				var ts []string
+				for _, te := range tr {
+					ts = append(ts, c.eval(te).T)
+				}
+				ps = append(ps, ":pattern ("+strings.Join(ts, " ")+")")
+			}
+			bt = "(! " + bt + " " + strings.Join(ps, " ") + ")"
+		}
+		return Val{T: fmt.Sprintf("(%s (%s) %s)", q, strings.Join(bs, " "), bt), Ty: tBool}
 	}
 	e.fail("cannot evaluate %s", exprString(x))
 	return Val{}
@@ -436,6 +448,41 @@ func (e *Env) call(x *ECall) Val {
 		}
 		alloc0 := e.m().allocNow(e.g.entry)
 		return Val{T: fmt.Sprintf("(forall ((fr Int)) (! (=> (< (root fr) %s) (= (select %s fr) (select %s fr))) :pattern ((select %s fr))))", alloc0, b, a, b), Ty: tBool}
+	case "fntag":
+		k, ok := x.Args[0].(*EStr)
+		if !ok {
+			e.fail("fntag(\"function key\")")
+		}
+		if e.g.w.funcs[k.V] == nil {
+			e.fail("fntag: unknown function %s", k.V)
+		}
+		return Val{T: e.g.fnTag(k.V), Ty: tInt}
+	case "monotone":
+		// monotone("ghost"): every cell of the boolean (or integer) ghost that was set (or had a value) in the
+		// pre-state is still set (is not smaller) now; stated with a one-directional pattern like the latch rely
+		k, ok := x.Args[0].(*EStr)
+		if !ok {
+			e.fail("monotone(\"ghost name\")")
+		}
+		gd, known := e.g.specs.Ghosts[k.V]
+		if !known || gd.Kind != "ghost" || len(gd.Params) != 1 {
+			e.fail("monotone: %s is not a one-parameter ghost", k.V)
+		}
+		pt := e.g.resolveType(gd.Params[0], e.pkg)
+		rt := e.g.resolveType(gd.Result, e.pkg)
+		if pt == nil || rt == nil {
+			e.fail("monotone: cannot resolve the types of %s", k.V)
+		}
+		srt := ghostSort([]Sort{sortOf(pt)}, sortOf(rt))
+		a, b := e.old.Get("G."+gd.Name, srt), e.now.Get("G."+gd.Name, srt)
+		if a == b {
+			return Val{T: "true", Ty: tBool}
+		}
+		rel := "=>"
+		if sortOf(rt) == SInt {
+			rel = "<="
+		}
+		return Val{T: fmt.Sprintf("(forall ((mm %s)) (! (%s (select %s mm) (select %s mm)) :pattern ((select %s mm))))", sortOf(pt), rel, a, b, b), Ty: tBool}
 	case "boxed":
 		v := e.eval(x.Args[0])
 		if v.Addr {
